@@ -257,4 +257,33 @@ theorem cnv_blk_fit {m col C S blk x : Nat} (hm : m % 4 = 0) (hcol : col < C) (h
     rw [← Nat.mul_assoc, Nat.mul_comm C (2 * m)]
   omega
 
+theorem ntt_pm_fit {n blk nrows ncols x : Nat} (hn : n % 2 = 0) (hb : blk < n / 2) (hx : x ≤ nrows * ncols * 16) :
+    blk * (nrows * ncols * 16) + x ≤ 8 * n * nrows * ncols := by
+  have k := blk_fit (blk := blk) (q := n / 2) (Q := nrows * ncols * 16) (x := x) hb hx
+  have e : n / 2 * (nrows * ncols * 16) = 8 * n * nrows * ncols := by
+    calc n / 2 * (nrows * ncols * 16) = (n / 2 * 16) * (nrows * ncols) := by
+          rw [Nat.mul_comm (nrows * ncols) 16, ← Nat.mul_assoc]
+      _ = 8 * n * (nrows * ncols) := by rw [show n / 2 * 16 = 8 * n by omega]
+      _ = 8 * n * nrows * ncols := by rw [Nat.mul_assoc (8 * n) nrows ncols]
+  omega
+
+theorem ntt_col_ext {c k ncols nrows y : Nat} (hc : c + k ≤ ncols) (hy : y ≤ k * (nrows * 16)) : c * (nrows * 16) + y ≤ nrows * ncols * 16 := by
+  have h1 := col_fit (c := c) (k := k) (C := ncols) (R := nrows * 16) hc
+  have e : ncols * (nrows * 16) = nrows * ncols * 16 := by rw [← Nat.mul_assoc, Nat.mul_comm ncols nrows]
+  omega
+
+/-- limb `(col, j)` of a layout with `w·n` scalars per limb -/
+theorem atw_fit {w j C c S x : Nat} (hj : j < S) (hc : c < C) (hx : x ≤ w) : w * (j * C + c) + x ≤ w * C * S := by
+  have := at_fit (n := w) (j := j) (C := C) (c := c) (S := S) hj hc
+  omega
+
+/-- row `row` of column `c` in a row-major pack source: `w·c + row·(w·C) + x ≤ w·C·S` for `x ≤ w` -/
+theorem rowcol_fit {w c C row S x : Nat} (hc : c < C) (hr : row < S) (hx : x ≤ w) : w * c + row * (w * C) + x ≤ w * C * S := by
+  have h1 : w * c + w ≤ w * C := by
+    have := Nat.mul_le_mul_left w (show c + 1 ≤ C by omega)
+    rwa [Nat.mul_add, Nat.mul_one] at this
+  have h2 := blk_fit (blk := row) (q := S) (Q := w * C) (x := w * c + x) hr (by omega)
+  have e : S * (w * C) = w * C * S := Nat.mul_comm _ _
+  omega
+
 end Kern
